@@ -165,22 +165,27 @@ def run(rep):
         rep.check(txt.split() == '# [ size ( runtime ) ] pub #member_name : Vec < #element_type >'.split() or
                   (txt.startswith('# [ size ( runtime ) ] pub #') and ': Vec < #' in txt and txt.endswith('>')), 'C06.rts-field', 'rts-shape', where,
                   f'runtime-sized array field is `{txt}`', ok_detail=txt)
-        # condition under which it is chosen
-        cond = None
-        if body[0] == 'alt':
-            for c, v in body[1]:
-                if E.find_templates(v, lambda t: t is rt):
-                    cond = c
-        mty = ('f', ('idx', None, None), 'inner')
-        okc = cond is not None and cond[0] == 'and' and len(cond[1]) == 2 and cond[1][0][0] == 'is' and cond[1][0][2].endswith('TypeInner::Array') and \
-            cond[1][0][1] == ti and cond[1][1] == ('is', ('vf', ti, cond[1][0][2], 'size'), 'naga::ArraySize::Dynamic')
-        rep.check(okc, 'C06.rts-field', 'rts-cond', where, f'the runtime-array field is chosen under {E.show(cond, maxdepth=6) if cond else None}', ok_detail='member type is Array with size Dynamic')
+        # which template is chosen for which member type: evaluated on concrete member types (not pattern-matched)
+        TI = 'naga::TypeInner::'
+        arr = lambda dyn: V(TI + 'Array', base='BASE', size=V('naga::ArraySize::Dynamic') if dyn else V('naga::ArraySize::Constant', **{'0': 4}), stride=16)
+        picks = {}
+        for label, inner in (('array<T>', arr(True)), ('array<T,4>', arr(False)), ('f32', V(TI + 'Scalar', **{'0': LT.scalar_v('Float', 4)})), ('struct', V(TI + 'Struct', members=(), span=4))):
+            def leaf(t, inner=inner):
+                return (inner,) if t == ti else None
+            ev = Eval(leaf, lenient=True)
+            try:
+                txt_ = ev.ev(body)
+            except (Diverge, Unbound) as ex:
+                txt_ = f'<{ex}>'
+            picks[label] = 'rts' if 'size ( runtime )' in str(txt_) else 'plain' if str(txt_).startswith('pub ') else str(txt_)[:60]
+        okc = picks == {'array<T>': 'rts', 'array<T,4>': 'plain', 'f32': 'plain', 'struct': 'plain'}
+        rep.check(okc, 'C06.rts-field', 'rts-cond', where, f'the runtime-array field template is chosen as {picks}; expected exactly for arrays of dynamic size', ok_detail='chosen iff member type is Array with size Dynamic')
         if len(hh) == 2:
             rep.check(hh[0] == want_name, 'C06.rts-field', 'rts-name', where, 'runtime-array field name is not the member name', ok_detail='name identity')
             scr2 = collect_scrutinees(hh[1])
             t2 = scr2.get('TypeInner', [])
             m2 = scr2.get('MatrixVectorTypes', [])
-            want_base = ('f', ('idx', ti[1][1], ('vf', ti, cond[1][0][2] if okc else 'naga::TypeInner::Array', 'base')), 'inner')
+            want_base = ('f', ('idx', ti[1][1], ('vf', ti, 'naga::TypeInner::Array', 'base')), 'inner')
             rep.check(bool(t2) and t2[0] == want_base and m2 == [mv], 'C06.rts-field', 'rts-elem', where,
                       f'runtime-array element type is not the table on module.types[base] under the selected representation ({E.show(t2[0], maxdepth=6) if t2 else None})',
                       ok_detail='Vec<table(module.types[base], options.matrix_vector_types)>')
